@@ -196,6 +196,15 @@ def run(chk):
                detail="`L%%u` is printed with `%s`; the unnamed entry on this path was looked up with %s (else the formatted label's own id is expected)" % (arg, cands))
     chk.floor(R4 + ":sites", nl, 2)
 
+    # ---------------------------------------------------------------- C20.e address terms are separated
+    R5 = "R-ADDRESS-TERM-SEPARATOR"
+    chk.rule(R5, "x86 format_operand, memory branch: between two printed address terms (base, index, displacement) a sign/separator character "
+                 "is appended on every feasible path (typestate: term -> separator -> term; the separator variable's non-zero-ness is tracked)")
+    sep_viol = separator_typestate(fo)
+    chk.ob(R5, "x86::format_operand|term-separator", not sep_viol, loc=fo.loc(sep_viol[0]) if sep_viol else UX,
+           detail="an address term is printed directly after another one without a separator (e.g. `[rcx*8256]`): %s" % (fo.text(sep_viol[0])[:60] if sep_viol else ""),
+           key="separator|x86::format_operand")
+
     return chk.finish(
         level="other", exhaustive=False,
         explanation=("Name-table clauses of the formatters in /repo's current source: every x86 register name for every (type, id) equals the "
@@ -203,6 +212,85 @@ def run(chk):
                      "their enumerators; every instruction id of both back ends decodes to its enumerator's mnemonic; the machine-code column is "
                      "fed from the writer's byte range before it is committed; unnamed-label text uses the id it was looked up with. Does not "
                      "decide operand rendering for every value or flag combination."))
+
+
+def separator_typestate(fn):
+    """Forward analysis over (pending term may be unterminated, op_sign known non-zero).  Returns offending call ids."""
+    from lib.cfg import forward
+    from lib.must import branch_atoms
+    atoms = branch_atoms(fn)
+    TERMS = ("format_register", "format_label", "append_uint")
+    # only the memory branch: elements after the `char op_sign` declaration
+    start_line = None
+    sign_did = None
+    for x in fn.ex.values():
+        if x["k"] == "decl":
+            for v in x["vars"]:
+                if v["name"] == "op_sign":
+                    start_line, sign_did = x["l"], v["did"]
+    if sign_did is None:
+        return [0]
+    end_line = min([x["l"] for x in fn.ex.values() if x["k"] == "return" and x["l"] > start_line and "']'" in fn.text(x.get("val", 0))] or [10 ** 9])
+    viol = []
+
+    def step1(el, pr, report):
+        pending, nz = pr
+        x = fn.e(el)
+        if not x or not (start_line <= x["l"] <= end_line):
+            return pr
+        if x["k"] == "decl":
+            for v in x["vars"]:
+                if v["did"] == sign_did:
+                    iv = fn.e(fn.strip(v["init"])) if v.get("init") else None
+                    return (False, bool(iv is not None and iv.get("cv")))
+        if x["k"] == "binop" and x["op"] == "=":
+            l = fn.e(fn.strip(x["lhs"]))
+            if l and l.get("did") == sign_did:
+                r = fn.e(fn.strip(x["rhs"]))
+                return (pending, bool(r is not None and r.get("cv")))
+        if x["k"] in ("call", "mcall"):
+            cn = x.get("cn")
+            if cn == "append" and x.get("args"):
+                a = fn.e(fn.strip(x["args"][0]))
+                if a and a.get("did") == sign_did:
+                    return (False, nz)
+            if cn in TERMS:
+                if pending and report:
+                    viol.append(el)
+                return (True, nz)
+        return pr
+
+    def step(el, st, report):
+        return frozenset(step1(el, pr, report) for pr in st)
+
+    def transfer(b, st):
+        for el in fn.blocks[b]["elems"]:
+            if isinstance(el, int):
+                st = step(el, st, False)
+        return st
+
+    def edge(b, si, succ, st):
+        if b in atoms:
+            atom, pol = atoms[b]
+            a = fn.e(atom)
+            if a and a["k"] == "ref" and a.get("did") == sign_did:
+                holds = (si == 0) == pol
+                return frozenset(pr for pr in st if pr[1] == holds)   # op_sign is exactly zero / non-zero per path state
+        return st
+
+    def join(states):
+        s = set()
+        for t in states:
+            s |= t
+        return frozenset(s)
+    IN, OUT = forward(fn, frozenset({(False, False)}), transfer, join, edge=edge)
+    for b in fn.blocks:
+        if b in IN:
+            st = IN[b]
+            for el in fn.blocks[b]["elems"]:
+                if isinstance(el, int):
+                    st = step(el, st, True)
+    return viol
 
 
 def innermost(fn, m, call_id, unnamed):
